@@ -254,10 +254,30 @@ impl Stats {
 }
 
 /// Run `f(shard, nshards)` on `threads` OS threads and merge the results.
+static TINY_TIER: std::sync::atomic::AtomicBool = std::sync::atomic::AtomicBool::new(false);
+thread_local! {
+    static TINY_CTR: std::cell::Cell<u64> = const { std::cell::Cell::new(0) };
+}
+
+/// The interpreter lanes (Miri, valgrind) run the `tiny` tier, where one evaluation costs 0.1 - 1 s: there the
+/// deterministic shape families are sampled - one case in `keep_one_in` - instead of enumerated.  Always false in the
+/// other tiers.
+pub fn tiny_skip(keep_one_in: u64) -> bool {
+    if !TINY_TIER.load(std::sync::atomic::Ordering::Relaxed) {
+        return false;
+    }
+    TINY_CTR.with(|c| {
+        let v = c.get();
+        c.set(v + 1);
+        v % keep_one_in != 0
+    })
+}
+
 pub fn par<F>(cfg: &Cfg, f: F) -> Stats
 where
     F: Fn(u64, u64) -> Stats + Sync,
 {
+    TINY_TIER.store(cfg.tier == Tier::Tiny, std::sync::atomic::Ordering::Relaxed);
     let n = cfg.threads.max(1) as u64;
     let (pi, pn) = cfg.pshard;
     let total = n * pn;
